@@ -64,11 +64,20 @@ class Ctx(object):
             if e.get("check") != name:
                 continue
             ws = e.get("witnesses")
-            if ws is None or witness_key in ws:
-                # a finding identified by call site only carries "site": ...; one by
-                # input carries the exact witness keys
-                if ws is None and not e.get("site"):
-                    continue
+            rx = e.get("key_regex")
+            if ws is not None:
+                if witness_key in ws:
+                    return e
+                continue
+            if rx is not None:
+                # a finding identified by the class of inputs that fail (construction route / call
+                # site encoded in the canonical witness key); other witnesses of the same monitor
+                # are still reported
+                import re
+                if re.search(rx, str(witness_key)):
+                    return e
+                continue
+            if e.get("site"):
                 return e
         return None
 
